@@ -10,7 +10,7 @@ use blake3::hazmat::HasherExt;
 use std::io::{Read, Seek, Write};
 use std::sync::atomic::AtomicUsize;
 use std::sync::Arc;
-#[cfg(not(feature = "full"))]
+#[cfg(not(feature = "par"))]
 use crate::lean::LeanHasher;
 
 pub const MAX_POS: u64 = u64::MAX; // stream has 2^64-1 bytes: positions 0 ..= 2^64-1
@@ -1008,6 +1008,31 @@ pub fn do_op(sh: &Arc<Shared>, local: &mut TaskLocal, op: &Op) -> OpResult {
             }
             Ok(Fnv::of(&got))
         }
+        Op::TraitOneShot { data, off, len, which, n } => {
+            use blake3::traits::digest::{Digest, ExtendableOutput};
+            let bytes = d(sh, *data, *off, *len)?;
+            let node = MMode::Hash.root(bytes);
+            let got: Vec<u8> = match which % 4 {
+                0 => <blake3::Hasher as Digest>::digest(bytes).to_vec(),
+                1 => {
+                    let mut out = vec![0u8; *n];
+                    <blake3::Hasher as ExtendableOutput>::digest_xof(bytes, &mut out);
+                    out
+                }
+                2 => <blake3::Hasher as Digest>::new_with_prefix(bytes).finalize().to_vec(),
+                _ => {
+                    let cut = bytes.len() / 3;
+                    <blake3::Hasher as Digest>::new().chain_update(&bytes[..cut]).chain_update(&bytes[cut..]).finalize().to_vec()
+                }
+            };
+            let want = node.stream(0, got.len());
+            if got != want {
+                let i = first_diff(&got, &want);
+                return viol("result-mismatch", format!("trait one-shot entry point {} over {} bytes differs from the spec at byte {i} of {}", which % 4, bytes.len(), got.len()));
+            }
+            sh.probe("trait_one_shot");
+            Ok(Fnv::of(&got))
+        }
         Op::Cancel => {
             sh.fault("client_cancelled");
             Ok(0xca)
@@ -1056,6 +1081,7 @@ fn via_tag(v: &AbsorbVia) -> u64 {
         AbsorbVia::Update => 0,
         AbsorbVia::Write => 1,
         AbsorbVia::WriteAll => 2,
+        AbsorbVia::WriteVectored { .. } => 22,
         AbsorbVia::IoCopy(_) => 3,
         AbsorbVia::Reader(_) => 4,
         AbsorbVia::ReaderDyn(_) => 5,
@@ -1119,6 +1145,40 @@ fn absorb(sh: &Arc<Shared>, hs: &mut HSlot, bytes: &[u8], via: &AbsorbVia) -> Op
             }
             all(hs);
             Ok(2)
+        }
+        AbsorbVia::WriteVectored { cuts } => {
+            let mut rest: &[u8] = bytes;
+            let mut rounds = 0;
+            while !rest.is_empty() {
+                let mut slices: Vec<std::io::IoSlice> = Vec::new();
+                let mut at = 0usize;
+                let mut k = rounds;
+                while at < rest.len() && slices.len() < 12 {
+                    let c = (cuts.get(k % cuts.len().max(1)).copied().unwrap_or(64) as usize).min(rest.len() - at);
+                    slices.push(std::io::IoSlice::new(&rest[at..at + c]));
+                    at += c;
+                    k += 1;
+                }
+                if at == 0 {
+                    // only empty slices so far: add a real one, or nothing would ever be consumed
+                    let c = rest.len().min(64);
+                    slices.push(std::io::IoSlice::new(&rest[..c]));
+                    at = c;
+                }
+                let n = match hs.h.write_vectored(&slices) {
+                    Ok(n) => n,
+                    Err(e) => return viol("result-mismatch", format!("write_vectored failed: {e}")),
+                };
+                if n > at || (n == 0 && at > 0) {
+                    return viol("result-mismatch", format!("write_vectored returned {n} for slices holding {at} bytes"));
+                }
+                rest = &rest[n..];
+                rounds += 1;
+            }
+            let _ = hs.h.flush();
+            all(hs);
+            sh.probe("write_vectored");
+            Ok(3)
         }
         AbsorbVia::WriteAll => {
             if let Err(e) = hs.h.write_all(bytes).and_then(|_| hs.h.flush()) {
